@@ -135,6 +135,11 @@ def shadow_recovery_stratum():
 SHADOW_FIXED = [
     r'let x = "a" in [(let x = "b" in `x`), `x`]',
     r'let x = D in [(let x = W in `x`)*, `x`]',
+    # the name is re-bound inside the expression that gives it its value: there it is not bound yet (unless further out)
+    r'let x = (let x = N in `x + 1`) in [`x`, W?]',
+    r'let x = W in [(let x = (let x = N in `x + 1`) in `x`), `x`]',
+    r'let x = (let x = D in (let x = `x` in `x`)) in [`x`, (let x = W in `x`)?, `x`]',
+    r'[(let x = (let x = N in "a"{x}) in `x`)*, W?]',
 ]
 CLASS_FIXED = [
     ('class T { a: "a"; b: (let a = "b" in `a`); c: `a` }', 'T', True),
